@@ -227,3 +227,114 @@ Proof.
   cbv zeta. eexists. split; [vm_compute; reflexivity|].
   split; [reflexivity|]. split; [repeat constructor|]. reflexivity.
 Qed.
+
+(* ---- the tie to the source text (GlobalSoftAttention.forward / check_input, DotProductSoftAttention.score) ----
+   PV.Gen.C20Src.{gsa_forward, gsa_check_input, dot_score, general_score} are regenerated on every run from
+   /repo/src/pydrobert/torch/_attn.py (whole method bodies) by harness/py2coq/translate.py, node for node;
+   PV.MiniPy.Interp is the semantics of the translated subset; SrcRun.ext20 interprets `self.check_input(..)` and
+   `self.score(..)` by running the other translated bodies, gives the torch calls (dim, shape, unsqueeze,
+   broadcasting *, sum, ~, masked_fill(-inf), softmax, ones, broadcast_shapes, tuple slicing/concatenation) the
+   meaning defined in PV.MiniTorch.OpsC20 (N-d tensors over bool / rationals / rationals-or-minus-infinity, read
+   through the same row-major / broadcasting index vocabulary as Model.v) and treats the exponential inside
+   softmax as the ORACLE [expf] (any function), exactly as the model does.  `self` is the dictionary of its
+   attributes.  The theorems below are about those regenerated terms and hold for EVERY input the model accepts:
+   tensors of any rank with any legal broadcasting (query (A.., Q), key (B.., T, C.., Q), value (B.., T, C.., D),
+   optional mask expanding to the score shape), every legal sequence dimension, positive or negative.
+   The source sees the materialised tensors [SrcRun.flat t] (shape in torch's order + row-major data) of the
+   model's index-function tensors t; for [t = qt s data] that is the tensor with those data. *)
+From PV Require MiniPy.Syntax MiniPy.Interp MiniTorch.OpsC07 MiniTorch.OpsC20 Gen.C20Src C20.SrcRun C20.TieOps C20.Tie.
+
+(* interpreting the source of forward (of a DotProductSoftAttention: dim, size qs, scale_factor sc) returns
+   exactly the tensor Model.attend computes with the dot-product score: same shape, every entry the same
+   rational - for every legal dim (axis_pos resolves it to the r-position p the model works with) *)
+Theorem c20_source_forward_is_model :
+  forall expf tanhf sc dim qs q k v m p out,
+  axis_pos dim (length (tshape k)) = Some p ->
+  attend expf (score tanhf (Dot sc)) q k v m p qs qs = Some out ->
+  exists st,
+    SrcRun.run_forward expf SrcRun.DotCls (SrcRun.self_dot dim qs qs sc)
+                       (SrcRun.flat q) (SrcRun.flat k) (SrcRun.flat v) (option_map SrcRun.flat m)
+    = Interp.Ok (OpsC20.enc_q (SrcRun.flat out)) st.
+Proof. exact Tie.forward_dot_tie. Qed.
+Print Assumptions c20_source_forward_is_model.
+
+(* the same for ANY score method whose interpreted body returns the model's score tensor e_at sc (the forward
+   pass itself: check_input, mask fill with -inf, softmax over the sequence axis with the negative-dim
+   adjustment, weighted sum of the values) *)
+Theorem c20_source_forward_any_score :
+  forall expf cls d sc q k v m dim p qs ks out,
+  axis_pos dim (length (tshape k)) = Some p ->
+  attend expf sc q k v m p qs ks = Some out ->
+  Interp.dict_get d (Syntax.VStr Tie.attr_dim) = Some (Syntax.VInt dim) ->
+  Interp.dict_get d (Syntax.VStr Tie.attr_query_size) = Some (Syntax.VInt (Z.of_nat qs)) ->
+  Interp.dict_get d (Syntax.VStr Tie.attr_key_size) = Some (Syntax.VInt (Z.of_nat ks)) ->
+  (forall es ps, attend_facts q k v m p es ps ->
+     forall st, SrcRun.call_body expf (SrcRun.score_body cls) (Tie.score_vars (Syntax.VDict d) (SrcRun.flat q) (SrcRun.flat k)) st
+                = Interp.Ok (OpsC20.enc_q (OpsC20.mat (mkT es (e_at sc q k p)))) st) ->
+  exists st,
+    SrcRun.run_forward expf cls (Syntax.VDict d) (SrcRun.flat q) (SrcRun.flat k) (SrcRun.flat v) (option_map SrcRun.flat m)
+    = Interp.Ok (OpsC20.enc_q (SrcRun.flat out)) st.
+Proof. exact Tie.forward_tie_score. Qed.
+Print Assumptions c20_source_forward_any_score.
+
+(* composed with c20_attention_in_kept_range: a statement purely about the interpreted source - on inputs of
+   legal shapes (Tie.legal_input: ranks, feature sizes and the three broadcasts of check_input; no reference to
+   the model's values) the source returns a tensor every cell of which lies within any bounds on the kept
+   values at that coordinate *)
+Theorem c20_source_attention_in_kept_range :
+  forall expf sc dim qs q k v m p,
+  (forall x, (0 < expf x)%Q) ->
+  axis_pos dim (length (tshape k)) = Some p -> Tie.legal_input q k v m p qs qs -> seq_agree k v p ->
+  exists r st,
+    SrcRun.run_forward expf SrcRun.DotCls (SrcRun.self_dot dim qs qs sc)
+                       (SrcRun.flat q) (SrcRun.flat k) (SrcRun.flat v) (option_map SrcRun.flat m)
+    = Interp.Ok (OpsC20.enc_q r) st /\
+    forall c j lo hi, valid (rev (OpsC07.shp r)) (c :: j) ->
+      (exists t, t < nth p (tshape k) 0 /\ kept_at m (ins (p - 1) t j) = true) ->
+      (forall t, t < nth p (tshape k) 0 -> kept_at m (ins (p - 1) t j) = true ->
+                 (lo <= bget v (c :: ins (p - 1) t j) <= hi)%Q) ->
+      (lo <= tat (OpsC20.rd 0%Q r) (c :: j) <= hi)%Q.
+Proof. exact Tie.source_dot_in_kept_range. Qed.
+Print Assumptions c20_source_attention_in_kept_range.
+
+(* composed with c20_attention_blind_to_masked: the tensor the interpreted source returns does not change when
+   keys and values at masked positions are replaced by anything *)
+Theorem c20_source_attention_blind_to_masked :
+  forall expf sc dim qs q k v k' v' m p,
+  axis_pos dim (length (tshape k)) = Some p ->
+  Tie.legal_input q k v m p qs qs -> tshape k' = tshape k -> tshape v' = tshape v ->
+  hd 0 (tshape k') = qs -> seq_agree k v p ->
+  exists r r' st st',
+    SrcRun.run_forward expf SrcRun.DotCls (SrcRun.self_dot dim qs qs sc)
+                       (SrcRun.flat q) (SrcRun.flat k) (SrcRun.flat v) (option_map SrcRun.flat m)
+    = Interp.Ok (OpsC20.enc_q r) st /\
+    SrcRun.run_forward expf SrcRun.DotCls (SrcRun.self_dot dim qs qs sc)
+                       (SrcRun.flat q) (SrcRun.flat k') (SrcRun.flat v') (option_map SrcRun.flat m)
+    = Interp.Ok (OpsC20.enc_q r') st' /\
+    OpsC07.shp r' = OpsC07.shp r /\
+    forall c j, valid (rev (OpsC07.shp r)) (c :: j) ->
+      (forall t, t < nth p (tshape k) 0 -> kept_at m (ins (p - 1) t j) = true ->
+                 brow k' (ins (p - 1) t j) = brow k (ins (p - 1) t j)
+                 /\ bget v' (c :: ins (p - 1) t j) = bget v (c :: ins (p - 1) t j)) ->
+      (tat (OpsC20.rd 0%Q r') (c :: j) == tat (OpsC20.rd 0%Q r) (c :: j))%Q.
+Proof. exact Tie.source_dot_blind_to_masked. Qed.
+Print Assumptions c20_source_attention_blind_to_masked.
+
+(* non-vacuity: the interpreted source on the concrete masked, batched input of c20_nonvacuous (dim 0, and the
+   same axis spelled -3 is out of the documented range for a rank-3 key: ValueError) returns the model's tensor *)
+Example c20_source_nonvacuous :
+  let expf := fun x : Q => (x * x + 1)%Q in
+  let q0 := qt [1; 2] [1; -2]%Q in
+  let k0 := qt [1; 2; 3] [1; 0; 2; 1; -1; 3]%Q in
+  let v0 := qt [2; 2; 3] [1; 2; 3; 4; 5; 6; 7; 8; 9; 10; 11; 12]%Q in
+  let m0 := Some (bt [2; 3] [true; false; true; true; false; true]) in
+  SrcRun.src_attend expf (Dot 1) 1 1 0%Z q0 k0 v0 m0
+  = option_map (fun o => Some (SrcRun.flat o)) (attend expf (score (fun x => x) (Dot 1)) q0 k0 v0 m0 2 1 1)
+  /\ SrcRun.src_attend expf (Dot 1) 1 1 0%Z q0 k0 v0 m0
+     = Some (Some (OpsC07.mkTn [2; 2] [189 # 49; 238 # 49; 97461 # 9261; 106722 # 9261]%Q))
+  /\ SrcRun.src_attend expf (Dot 1) 1 1 (-3)%Z q0 k0 v0 m0 = Some None
+  /\ Tie.legal_input q0 k0 v0 m0 2 1 1.
+Proof.
+  cbv zeta. split; [vm_compute; reflexivity|]. split; [vm_compute; reflexivity|]. split; [vm_compute; reflexivity|].
+  eapply Tie.attend_legal. vm_compute. reflexivity.
+Qed.
